@@ -2,7 +2,7 @@
 from facts import AnalysisBroken
 from model import (dstr, strip, fact_holds, mentions_field, mentions_call, mentions_var,
                    const_value, walk)
-from rules import (guarded, calls_to, who_may_call, dominated_by, full_range, loops_over,
+from rules import (lastname, guarded, calls_to, who_may_call, dominated_by, full_range, loops_over,
                    every_iteration_passes, basename, origins, skip_conditions_exact,
                    reached_only_via)
 
@@ -178,15 +178,18 @@ def run(ctx):
               'RemoveEdgeFiles removes the depfile and the rspfile (%s)' % sorted(kinds))
     for e in ref.calls('Cleaner::Remove'):
         a = strip(e['args'][0])
-        v = a.get('n') if isinstance(a, dict) and a.get('k') == 'var' else None
+        v = dstr(a)
         def empty_edge(b, i, s2, v=v):
-            return not any(pol is True and v is not None and mentions_var(atom, v) and
-                           (mentions_call(atom, 'std::basic_string<char>::empty') or 'empty' in k)
-                           for k, pol, atom in ref.edge_facts(b, i))
+            for k, pol, atom in ref.edge_facts(b, i):
+                sa = strip(atom)
+                if pol is True and isinstance(sa, dict) and sa.get('k') == 'call' and lastname(sa.get('name')) == 'empty' and \
+                        dstr(strip(sa.get('recv'))) == v:
+                    return False
+            return True
         r = ref.find_path(None, lambda x: x['k'] in ('exit', 'ret'), from_succ=ref.entry, is_blocker=lambda x: x is e,
                           edge_ok=empty_edge)
-        ctx.check('C18.O1', r is None, ref.name, 'RemoveEdgeFiles:skipped:%s' % v, ref.where(e),
-                  'Remove(%s) is skipped only when the edge has no such file (%s.empty())' % (v, v),
+        ctx.check('C18.O1', r is None, ref.name, 'RemoveEdgeFiles:skipped:%s' % v[:40], ref.where(e),
+                  'Remove(%s) is skipped only when the edge has no such file (.empty())' % v[:60],
                   witness=None if r is None else {'blocks': r[0]})
     for name in PUBLIC:
         f = prog.fn(name)
